@@ -59,6 +59,12 @@ struct Shared : sc::Run {
   manual_lifetime<consumer_t> cons;
   bool cons_live = false;
   bool done[4] = {false, false, false, false};
+  // an unnamed (untraced) atomic of the driver: reading it is a preemption point.  Without it a thread
+  // would go from the return of one completion straight into the next one (block_until does not yield
+  // when its condition already holds), e.g. the source cleanup would always complete before anything
+  // else can happen after cleanup start() returned.
+  std::atomic<int> tick{0};
+  void yield_point() { (void)tick.load(std::memory_order_relaxed); }
   ~Shared() {
     if (strm_live) strm->~stream_t();
     if (strm && !(realfree && !strm_live)) ::operator delete((void*)strm);
@@ -115,13 +121,17 @@ std::vector<std::function<void()>> make_threads(const Program& pr) {
   // 1: A — the source stream's completions
   th.push_back([sh, pr] {
     int i = 0;
-    for (char k : pr.script) sh->nctl[0].complete(k, k == 'v' ? 100 + i++ : 5);
+    for (char k : pr.script) { sh->yield_point(); sh->nctl[0].complete(k, k == 'v' ? 100 + i++ : 5); }
+    dsched::block_until([&] { return sh->cctl[0].outstanding; });
+    sh->yield_point();
     sh->cctl[0].complete(pr.srccl, 7);
     sh->done[1] = true;
   });
   // 2: B — the trigger stream's completions
   th.push_back([sh, pr] {
     sh->nctl[1].complete(pr.trg, pr.trg == 'v' ? 200 : 6);
+    dsched::block_until([&] { return sh->cctl[1].outstanding; });
+    sh->yield_point();
     sh->cctl[1].complete(pr.trgcl, 8);
     sh->done[2] = true;
   });
